@@ -40,6 +40,19 @@ func c15GenRule(r *rng) string {
 			}
 			ds = append(ds, d)
 		}
+		if r.chance(1, 8) {
+			// N2: MANY domains (4, 5, 9, 17, 33, 41, 65 … up to 80): the aimed names above plus filler names, at random positions
+			total := n2Count(r, 1, nil, 4, 80)
+			off := r.n(500)
+			for k := 0; len(ds) < total; k++ {
+				f := fmt.Sprintf("shop%03d.example.net", off+k)
+				if r.chance(1, 10) {
+					f = "~" + f
+				}
+				pos := r.n(len(ds) + 1)
+				ds = append(ds[:pos:pos], append([]string{f}, ds[pos:]...)...)
+			}
+		}
 
 		return strings.Join(ds, ",")
 	}
@@ -183,12 +196,31 @@ func c15Gen(r *rng, n int, w *bufio.Writer) {
 		if r.chance(1, 5) {
 			nLines = 1 + r.n(40)
 		}
+		// N2: once in 20 scenarios MANY rules in one engine (more than 40 / 64 / 100 / 255 …), most of them generic rules
+		// with selectors of their own (the answer is a set of selectors), with exceptions and exclusions for some of them
+		many := r.chance(1, 20)
+		if many {
+			nLines = n2Count(r, 1, nil, 41, 280)
+		}
 		bodies := make([][]string, nLists)
 		var all []string
 		for j := 0; j < nLines; j++ {
 			t := c15GenRule(r)
 			if r.chance(1, 40) {
 				t = c15LongRule(r)
+			}
+			if many && r.chance(5, 6) {
+				sel := fmt.Sprintf(".g%d", r.n(nLines))
+				switch r.n(12) {
+				case 0:
+					t = pick(r, c15Domains) + "#@#" + sel
+				case 1:
+					t = "~" + pick(r, c15Domains) + "##" + sel
+				case 2:
+					t = pick(r, c15Domains) + "##" + sel
+				default:
+					t = "##" + sel
+				}
 			}
 			if len(all) > 0 && r.chance(1, 8) {
 				t = pick(r, all)
